@@ -308,7 +308,7 @@ def run_unary_boundary():
     evals = nt = 0
     for L in BOUNDARY + [2, 3, 0xFE, 0x101, 0xFFFE, 0x10001, 0x7FFFFFFF, 0x80000000, 0xFFFFFFFE]:
         lit = ("n", L, hex(L))
-        for pre in [("~",), ("-",), ("~", "~"), ("-", "~"), ("-", "-"), ("~", "~", "~"), ("-", "-", "~")]:
+        for pre in [("~",), ("-",), ("~", "~"), ("-", "~"), ("-", "-"), ("~", "~", "~"), ("-", "-", "~"), ("~", "-"), ("~", "~", "-"), ("-", "~", "-")]:
             t = lit
             for u in reversed(pre):
                 t = ("u", u, t)
